@@ -648,8 +648,15 @@ def main(tier):
         if not mine:
             raise MachineryError(f"no TLC output for program {k}")
         if "error" in rr:
+            # Checker.tla ValidateCrashTrigger: static-bounds object with another random property
+            so0 = next(iter(mine.values()))
+            known = None
+            if (so0["vcrash"] and rr["error"].startswith("compile: RandomControlFlowError")
+                    and "in validate" in rr.get("tb", "")):
+                known = "validate-random-property-crash"
+            ck.case(("compile-error", text), True)
             ck.violation(f"real code failed on a well-formed lattice program: {rr['error']}",
-                         {"property": "C02", "program": text, "prog": prog, "error": rr})
+                         {"property": "C02", "program": text, "prog": prog, "error": rr}, known_key=known)
             continue
         if "invalid" in rr and not any(m in rr["invalid"] for m in VALIDATE_MESSAGES):
             # some other static restriction of the language: the program is outside the fragment
